@@ -243,6 +243,14 @@ func (c *ATConn) createNewTxOnExecIfNeed(ctx context.Context, f func() (types.Ex
 	}
 
 	if tx != nil {
+		// the rows of a query are read before the transaction opened for it is committed: the driver refuses
+		// COMMIT (every command) while a result is unread, and the application reads them afterwards
+		if ret, err = types.BufferResult(ret); err != nil {
+			if rollbackErr := tx.Rollback(); rollbackErr != nil {
+				log.Errorf("conn at rollback error:%v", rollbackErr)
+			}
+			return nil, err
+		}
 		if err := tx.Commit(); err != nil {
 			return nil, err
 		}
